@@ -687,20 +687,15 @@ def simplify_constrained_range(source: str) -> str:
         else:
             continue
 
-        if core.match_template(args[0], ast.Constant(value=int)):
-            start = args[0].value
-        else:
-            start = None
+        # Folding filters into the range arguments is only sound for unit steps and
+        # constant integer bounds.
+        try:
+            start, stop, step = (core.literal_value(arg) for arg in args)
+        except ValueError:
+            continue
 
-        if core.match_template(args[1], ast.Constant(value=int)):
-            stop = args[1].value
-        else:
-            stop = None
-
-        if core.match_template(args[2], ast.Constant(value=int)):
-            step = args[2].value
-        else:
-            step = None
+        if not all(type(value) is int for value in (start, stop, step)) or step != 1:
+            continue
 
         target_name = comp.target.id
 
@@ -716,38 +711,38 @@ def simplify_constrained_range(source: str) -> str:
 
         gt_template = (
             ast.Compare(
-                left=ast.Name(id=target_name), ops=[ast.Gt()], comparators=[ast.Constant()]
+                left=ast.Name(id=target_name), ops=[ast.Gt()], comparators=[ast.Constant(value=int)]
             ),
             ast.Compare(
-                left=ast.Constant(), ops=[ast.Lt()], comparators=[ast.Name(id=target_name)]
+                left=ast.Constant(value=int), ops=[ast.Lt()], comparators=[ast.Name(id=target_name)]
         ),)
         lt_template = (
             ast.Compare(
-                left=ast.Name(id=target_name), ops=[ast.Lt()], comparators=[ast.Constant()]
+                left=ast.Name(id=target_name), ops=[ast.Lt()], comparators=[ast.Constant(value=int)]
             ),
             ast.Compare(
-                left=ast.Constant(), ops=[ast.Gt()], comparators=[ast.Name(id=target_name)]
+                left=ast.Constant(value=int), ops=[ast.Gt()], comparators=[ast.Name(id=target_name)]
         ),)
         gte_template = (
             ast.Compare(
-                left=ast.Name(id=target_name), ops=[ast.GtE()], comparators=[ast.Constant()]
+                left=ast.Name(id=target_name), ops=[ast.GtE()], comparators=[ast.Constant(value=int)]
             ),
             ast.Compare(
-                left=ast.Constant(), ops=[ast.LtE()], comparators=[ast.Name(id=target_name)]
+                left=ast.Constant(value=int), ops=[ast.LtE()], comparators=[ast.Name(id=target_name)]
         ),)
         lte_template = (
             ast.Compare(
-                left=ast.Name(id=target_name), ops=[ast.LtE()], comparators=[ast.Constant()]
+                left=ast.Name(id=target_name), ops=[ast.LtE()], comparators=[ast.Constant(value=int)]
             ),
             ast.Compare(
-                left=ast.Constant(), ops=[ast.GtE()], comparators=[ast.Name(id=target_name)]
+                left=ast.Constant(value=int), ops=[ast.GtE()], comparators=[ast.Name(id=target_name)]
         ),)
         eq_template = (
             ast.Compare(
-                left=ast.Name(id=target_name), ops=[ast.Eq()], comparators=[ast.Constant()]
+                left=ast.Name(id=target_name), ops=[ast.Eq()], comparators=[ast.Constant(value=int)]
             ),
             ast.Compare(
-                left=ast.Constant(), ops=[ast.Eq()], comparators=[ast.Name(id=target_name)]
+                left=ast.Constant(value=int), ops=[ast.Eq()], comparators=[ast.Name(id=target_name)]
         ),)
         templates = (gt_template, lt_template, gte_template, lte_template, eq_template)
 
@@ -777,7 +772,7 @@ def simplify_constrained_range(source: str) -> str:
                     redundant_conditions.add(condition)
 
             elif core.match_template(condition, lte_template):
-                if stop is None or comparator.value <= stop:
+                if stop is None or comparator.value < stop:
                     stop = comparator.value + 1
                     redundant_conditions.add(condition)
 
